@@ -385,6 +385,10 @@ def variant_specs(draw, lo, hi, max_n=3, kinds=("snv", "ins", "del", "del_unpadd
         else:
             e = min(hi, s + draw(st.integers(1, 3)))
             alt, vt = "", "deletion"
+        if draw(st.integers(0, 4)) == 0:
+            # the type label is free text (BioCantor's own VCF conversion labels every non-SNV allele "MNV", other sources write
+            # "indel", "complex", ...): the edit is defined by start / end / alternative sequence alone
+            vt = draw(st.sampled_from(["MNV", "SNV", "indel", "complex", "sub", ""]))
         out.append({"start": s, "end": e, "sequence": alt, "variant_type": vt})
         cur = e + draw(st.integers(0, 3))
     if not out:
